@@ -19,7 +19,7 @@ extent-length function for writer, reader, retirement, recovery and migration); 
 followed by reserve_sector and disk_usage += and every release of an owned extent by disk_usage -=; flush_all / Drop
 persist loads of record_count / disk_usage. Not decided: the partition invariant itself at quiescent points.
 """
-DECIDED = ["(a) who allocates / releases", "(b,c) release after durable marker and with no reader; dirty reservations only after scrub",
+DECIDED = ["a scrubbed run is released with the sum of its members' own extent lengths", "(a) who allocates / releases", "(b,c) release after durable marker and with no reader; dirty reservations only after scrub",
            "(d) one extent-length function", "(e) disk_usage accounting and what is persisted"]
 NOT_DECIDED = ["(f) the data area is exactly partitioned at every quiescent point", "no leak over unbounded workloads"]
 ASSUMPTIONS = ["exclusive access to FreeSpaceManager is by type (&mut self behind RwLock)"]
